@@ -81,20 +81,18 @@ Proof.
   rewrite shr_stages by lia. apply Buf_eq; lia.
 Qed.
 
-(* the guard of the arithmetic shifter: the sign fill produced by the (wa + 2^wb)-bit pre-extension
-   reaches the top of the result *)
-Lemma sar_fill wa wb wr a b :
-  1 <= wa -> 1 <= wb -> 0 <= wr -> 0 <= a < 2 ^ wa -> 0 <= b < 2 ^ wb ->
-  wr + b <= wa + 2 ^ wb \/ a < 2 ^ (wa - 1) ->
-  umod wr (umod (wa + 2 ^ wb) (sgn wa a) / 2 ^ b) = umod wr (sgn wa a / 2 ^ b).
+(* the sign fill produced by a we-bit pre-extension reaches the top of the result when wr + b <= we *)
+Lemma sar_fill wa we wr a b :
+  1 <= wa <= we -> 0 <= wr -> 0 <= a < 2 ^ wa -> 0 <= b ->
+  wr + b <= we \/ a < 2 ^ (wa - 1) ->
+  umod wr (umod we (sgn wa a) / 2 ^ b) = umod wr (sgn wa a / 2 ^ b).
 Proof.
-  intros Hwa Hwb Hwr Ha Hb Hg. set (we := wa + 2 ^ wb).
-  pose proof (pow2_pos wb ltac:(lia)) as Hp. assert (Hwe : wa < we) by (subst we; lia).
-  pose proof (pow2_lt wa we ltac:(lia)).
+  intros Hwa Hwr Ha Hb Hg.
+  pose proof (pow2_le wa we ltac:(lia)).
   unfold sgn. destruct (Z.ltb_spec a (2 ^ (wa - 1))) as [Hs|Hs].
   - rewrite (umod_small we a) by lia. reflexivity.
-  - assert (Hg' : wr + b <= we) by (subst we; lia).
-    pose proof (pow2_double wa Hwa) as Hd.
+  - assert (Hg' : wr + b <= we) by lia.
+    pose proof (pow2_double wa ltac:(lia)) as Hd.
     rewrite (umod_eq we (a - 2 ^ wa) (a - 2 ^ wa + 2 ^ we) (-1)) by lia.
     rewrite (umod_small we) by lia.
     rewrite (pow2_split b we) by lia.
@@ -102,17 +100,46 @@ Proof.
     rewrite (pow2_split wr (we - b)) by lia. apply umod_add_mul; lia.
 Qed.
 
+(* the arithmetic modes for whatever pre-extension width the constructor uses (Model: sar_ext) *)
+Lemma ShiftRight_arith_ext wa wb wr a b :
+  1 <= wa <= sar_ext wa wb wr -> 1 <= wb -> 0 <= wr -> 0 <= a < 2 ^ wa -> 0 <= b < 2 ^ wb ->
+  wr + b <= sar_ext wa wb wr \/ a < 2 ^ (wa - 1) ->
+  m_ShiftRight AArith wa wb wr a b = spec_sar wa wr a b.
+Proof.
+  intros Hwa Hwb Hwr Ha Hb Hg. unfold m_ShiftRight, spec_sar. cbv zeta. cbv iota beta.
+  set (we := sar_ext wa wb wr) in *.
+  rewrite SignExtend_eq by lia.
+  rewrite shr_stages by (try lia; apply umod_range; lia).
+  rewrite Buf_eq by lia. apply sar_fill; lia.
+Qed.
+
+Lemma ShiftRight_wire_ext wa wb wr v a b :
+  1 <= wa <= sar_ext wa wb wr -> 1 <= wb -> 0 <= wr -> 0 <= a < 2 ^ wa -> 0 <= b < 2 ^ wb ->
+  wr + b <= sar_ext wa wb wr \/ a < 2 ^ (wa - 1) \/ v mod 2 = 0 ->
+  m_ShiftRight (AWire v) wa wb wr a b = if v mod 2 =? 1 then spec_sar wa wr a b else spec_shr wr a b.
+Proof.
+  intros Hwa Hwb Hwr Ha Hb Hg. unfold m_ShiftRight, spec_sar, spec_shr. cbv zeta. cbv iota beta.
+  set (we := sar_ext wa wb wr) in *.
+  pose proof (pow2_le wa we ltac:(lia)).
+  rewrite Mux2_eq, SignExtend_eq, ZeroExtend_eq by lia.
+  rewrite shr_stages by (try lia; apply umod_range; lia).
+  rewrite Buf_eq by lia. pose proof (Z.mod_pos_bound v 2).
+  destruct (Z.eqb_spec (v mod 2) 1) as [E|E].
+  - rewrite umod_umod by lia. apply sar_fill; lia.
+  - rewrite umod_umod, (umod_small _ a) by lia. reflexivity.
+Qed.
+
+(* sar_ext is at least wa + 2^wb (exactly that before the repair of C07-SAR-WIDE, max(wa,wr) + 2^wb after) *)
+Lemma sar_ext_ge wa wb wr : 1 <= wb -> wa + 2 ^ wb <= sar_ext wa wb wr.
+Proof. intros. unfold sar_ext, py_shl. rewrite Z.shiftl_1_l. lia. Qed.
 
 Lemma ShiftRight_arith_correct wa wb wr a b :
   1 <= wa -> 1 <= wb -> 0 <= wr -> 0 <= a < 2 ^ wa -> 0 <= b < 2 ^ wb ->
   wr + b <= wa + 2 ^ wb \/ a < 2 ^ (wa - 1) ->
   m_ShiftRight AArith wa wb wr a b = spec_sar wa wr a b.
 Proof.
-  intros Hwa Hwb Hwr Ha Hb Hg. unfold m_ShiftRight, spec_sar. cbv zeta. cbv iota beta.
-  unfold py_shl. rewrite Z.shiftl_1_l. pose proof (pow2_pos wb ltac:(lia)).
-  rewrite SignExtend_eq by lia.
-  rewrite shr_stages by (try lia; apply umod_range; lia).
-  rewrite Buf_eq by lia. apply sar_fill; lia.
+  intros. pose proof (sar_ext_ge wa wb wr ltac:(lia)). pose proof (pow2_pos wb ltac:(lia)).
+  apply ShiftRight_arith_ext; lia.
 Qed.
 
 Lemma ShiftRight_wire_correct wa wb wr v a b :
@@ -120,15 +147,8 @@ Lemma ShiftRight_wire_correct wa wb wr v a b :
   wr + b <= wa + 2 ^ wb \/ a < 2 ^ (wa - 1) \/ v mod 2 = 0 ->
   m_ShiftRight (AWire v) wa wb wr a b = if v mod 2 =? 1 then spec_sar wa wr a b else spec_shr wr a b.
 Proof.
-  intros Hwa Hwb Hwr Ha Hb Hg. unfold m_ShiftRight, spec_sar, spec_shr. cbv zeta. cbv iota beta.
-  unfold py_shl. rewrite Z.shiftl_1_l. pose proof (pow2_pos wb ltac:(lia)).
-  pose proof (pow2_lt wa (wa + 2 ^ wb) ltac:(lia)).
-  rewrite Mux2_eq, SignExtend_eq, ZeroExtend_eq by lia.
-  rewrite shr_stages by (try lia; apply umod_range; lia).
-  rewrite Buf_eq by lia. pose proof (Z.mod_pos_bound v 2).
-  destruct (Z.eqb_spec (v mod 2) 1) as [E|E].
-  - rewrite umod_umod by lia. apply sar_fill; lia.
-  - rewrite umod_umod, (umod_small _ a) by lia. reflexivity.
+  intros. pose proof (sar_ext_ge wa wb wr ltac:(lia)). pose proof (pow2_pos wb ltac:(lia)).
+  apply ShiftRight_wire_ext; lia.
 Qed.
 
 (* ---- left shift inside w = max(wa, wr) bits --------------------------------------------------- *)
@@ -155,8 +175,9 @@ Proof.
 Qed.
 
 (* ---- rotations -------------------------------------------------------------------------------- *)
-Lemma rotr_stages wa wb wr b x : 1 <= wa <= wr -> 1 <= wb -> 2 ^ (wb - 1) <= wa -> 0 <= b < 2 ^ wb -> 0 <= x < 2 ^ wa ->
-  m_stages (fun n y => RotateRightConstant_propagate wa wr n y) wa b (Z.to_nat wb) 0 x = rotr wa x b.
+(* ws = width of the per-stage `shifted` wires; any ws >= wa works *)
+Lemma rotr_stages wa wb ws b x : 1 <= wa <= ws -> 1 <= wb -> 2 ^ (wb - 1) <= wa -> 0 <= b < 2 ^ wb -> 0 <= x < 2 ^ wa ->
+  m_stages (fun n y => RotateRightConstant_propagate wa ws n y) wa b (Z.to_nat wb) 0 x = rotr wa x b.
 Proof.
   intros Hwa Hwb Hst Hb Hx.
   apply (stages_all (inrange wa) (fun n y => rotr wa y n) _ wa b wb); unfold inrange; [ | | | | | lia | lia | lia | lia ].
@@ -165,20 +186,12 @@ Proof.
   - intros n y _ Hy. apply rotr_range; lia.
   - intros i y Hi Hy. pose proof (pow2_pos i ltac:(lia)).
     assert (2 ^ i <= 2 ^ (wb - 1)) by (apply pow2_le; lia).
-    unfold py_shl. rewrite Z.shiftl_1_l. rewrite RotateRightConstant_raw by lia.
-    rewrite umod_umod_le by lia. apply rotr_raw; lia.
+    unfold py_shl. rewrite Z.shiftl_1_l. apply RotateRightConstant_low; lia.
   - intros y Hy. apply umod_small; lia.
 Qed.
 
-Lemma RotateRight_correct wa wb wr a b :
-  1 <= wa <= wr -> 1 <= wb -> 2 ^ (wb - 1) <= wa -> 0 <= a < 2 ^ wa -> 0 <= b < 2 ^ wb ->
-  m_RotateRight wa wb wr a b = spec_rotr wa wr a b.
-Proof.
-  intros. unfold m_RotateRight, spec_rotr. cbv zeta. rewrite rotr_stages by lia. apply Buf_eq; lia.
-Qed.
-
-Lemma rotl_stages wa wb wr b x : 1 <= wa <= wr -> 1 <= wb -> 2 ^ (wb - 1) <= wa -> 0 <= b < 2 ^ wb -> 0 <= x < 2 ^ wa ->
-  m_stages (fun n y => RotateLeftConstant_propagate wa wr n y) wa b (Z.to_nat wb) 0 x = rotl wa x b.
+Lemma rotl_stages wa wb ws b x : 1 <= wa <= ws -> 1 <= wb -> 2 ^ (wb - 1) <= wa -> 0 <= b < 2 ^ wb -> 0 <= x < 2 ^ wa ->
+  m_stages (fun n y => RotateLeftConstant_propagate wa ws n y) wa b (Z.to_nat wb) 0 x = rotl wa x b.
 Proof.
   intros Hwa Hwb Hst Hb Hx.
   apply (stages_all (inrange wa) (fun n y => rotl wa y n) _ wa b wb); unfold inrange; [ | | | | | lia | lia | lia | lia ].
@@ -187,32 +200,38 @@ Proof.
   - intros n y _ Hy. apply rotl_range; lia.
   - intros i y Hi Hy. pose proof (pow2_pos i ltac:(lia)).
     assert (2 ^ i <= 2 ^ (wb - 1)) by (apply pow2_le; lia).
-    unfold py_shl. rewrite Z.shiftl_1_l. rewrite RotateLeftConstant_raw by lia.
-    rewrite umod_umod_le by lia. apply rotl_raw; lia.
+    unfold py_shl. rewrite Z.shiftl_1_l. apply RotateLeftConstant_low; lia.
   - intros y Hy. apply umod_small; lia.
 Qed.
 
-Lemma RotateLeft_correct wa wb wr a b :
-  1 <= wa <= wr -> 1 <= wb -> 2 ^ (wb - 1) <= wa -> 0 <= a < 2 ^ wa -> 0 <= b < 2 ^ wb ->
+(* for whatever width the constructor gives the `shifted` wires (Model: rot_sw), provided it holds the operand *)
+Lemma RotateRight_ext wa wb wr a b :
+  1 <= wa <= rot_sw wa wr -> 0 <= wr -> 1 <= wb -> 2 ^ (wb - 1) <= wa -> 0 <= a < 2 ^ wa -> 0 <= b < 2 ^ wb ->
+  m_RotateRight wa wb wr a b = spec_rotr wa wr a b.
+Proof.
+  intros. unfold m_RotateRight, spec_rotr. cbv zeta. rewrite rotr_stages by lia. apply Buf_eq; lia.
+Qed.
+
+Lemma RotateLeft_ext wa wb wr a b :
+  1 <= wa <= rot_sw wa wr -> 0 <= wr -> 1 <= wb -> 2 ^ (wb - 1) <= wa -> 0 <= a < 2 ^ wa -> 0 <= b < 2 ^ wb ->
   m_RotateLeft wa wb wr a b = spec_rotl wa wr a b.
 Proof.
   intros. unfold m_RotateLeft, spec_rotl. cbv zeta. rewrite rotl_stages by lia. apply Buf_eq; lia.
 Qed.
 
-(* constant rotations: exact when the result is not wider than the operand *)
-Lemma RotateLeftConstant_correct wa wr n a : 1 <= wa -> 0 <= wr <= wa -> 0 <= n <= wa -> 0 <= a < 2 ^ wa ->
-  RotateLeftConstant_propagate wa wr n a = spec_rotl wa wr a n.
-Proof.
-  intros. rewrite RotateLeftConstant_raw by lia. unfold spec_rotl. rewrite <- rotl_raw by lia.
-  symmetry. apply umod_umod_le; lia.
-Qed.
+(* rot_sw is at least wr (exactly wr before the repair of C07-ROT-NARROW, max(wa, wr) after) *)
+Lemma rot_sw_ge wa wr : wr <= rot_sw wa wr.
+Proof. unfold rot_sw. lia. Qed.
 
-Lemma RotateRightConstant_correct wa wr n a : 1 <= wa -> 0 <= wr <= wa -> 0 <= n <= wa -> 0 <= a < 2 ^ wa ->
-  RotateRightConstant_propagate wa wr n a = spec_rotr wa wr a n.
-Proof.
-  intros. rewrite RotateRightConstant_raw by lia. unfold spec_rotr. rewrite <- rotr_raw by lia.
-  symmetry. apply umod_umod_le; lia.
-Qed.
+Lemma RotateRight_correct wa wb wr a b :
+  1 <= wa <= wr -> 1 <= wb -> 2 ^ (wb - 1) <= wa -> 0 <= a < 2 ^ wa -> 0 <= b < 2 ^ wb ->
+  m_RotateRight wa wb wr a b = spec_rotr wa wr a b.
+Proof. intros. pose proof (rot_sw_ge wa wr). apply RotateRight_ext; lia. Qed.
+
+Lemma RotateLeft_correct wa wb wr a b :
+  1 <= wa <= wr -> 1 <= wb -> 2 ^ (wb - 1) <= wa -> 0 <= a < 2 ^ wa -> 0 <= b < 2 ^ wb ->
+  m_RotateLeft wa wb wr a b = spec_rotl wa wr a b.
+Proof. intros. pose proof (rot_sw_ge wa wr). apply RotateLeft_ext; lia. Qed.
 
 (* wr <= wa + 1 is the guard in terms of widths only *)
 Lemma ShiftRight_arith_std wa wb wr a b :
@@ -220,19 +239,33 @@ Lemma ShiftRight_arith_std wa wb wr a b :
   m_ShiftRight AArith wa wb wr a b = spec_sar wa wr a b.
 Proof. intros. apply ShiftRight_arith_correct; try lia. Qed.
 
-(* ---- refutations: the guards above cannot be dropped ------------------------------------------- *)
-Lemma shift_right_arith_wide_refuted :
-  exists wa wb wr a b, 1 <= wa /\ 1 <= wb /\ 0 <= a < 2 ^ wa /\ 0 <= b < 2 ^ wb /\
-    m_ShiftRight AArith wa wb wr a b <> spec_sar wa wr a b.
-Proof. exists 1, 1, 3, 1, 1. vm_compute. repeat split; congruence. Qed.
+(* ---- refutations: the guards above cannot be dropped (one block per open finding; a block is replaced by the
+   unguarded lemmas when the repair of that finding is committed in /repo: fixes/C07_switch.py) ---------------- *)
+(* C07-SAR-WIDE: repaired in /repo, switched by fixes/C07_switch.py *)
+(* the pre-extension is max(wa, wr) + 2^wb bits wide: the sign fill reaches the top of r for every amount *)
+Lemma sar_ext_full wa wb wr b : 1 <= wb -> 0 <= b < 2 ^ wb -> wa <= sar_ext wa wb wr /\ wr + b <= sar_ext wa wb wr.
+Proof. intros. unfold sar_ext, py_shl. rewrite Z.shiftl_1_l. lia. Qed.
 
-Lemma rotate_narrow_refuted :
-  exists wa wb wr a b, 1 <= wa /\ 1 <= wb /\ 2 ^ (wb - 1) <= wa /\ 0 <= a < 2 ^ wa /\ 0 <= b < 2 ^ wb /\
-    m_RotateRight wa wb wr a b <> spec_rotr wa wr a b /\ m_RotateLeft wa wb wr a b <> spec_rotl wa wr a b.
-Proof. exists 3, 2, 1, 1, 3. vm_compute. repeat split; congruence. Qed.
+Lemma ShiftRight_arith_full wa wb wr a b :
+  1 <= wa -> 1 <= wb -> 0 <= wr -> 0 <= a < 2 ^ wa -> 0 <= b < 2 ^ wb ->
+  m_ShiftRight AArith wa wb wr a b = spec_sar wa wr a b.
+Proof. intros. pose proof (sar_ext_full wa wb wr b ltac:(lia) ltac:(lia)). apply ShiftRight_arith_ext; lia. Qed.
 
-Lemma rotate_constant_wide_refuted :
-  exists wa wr n a, 1 <= wa /\ 0 <= n <= wa /\ 0 <= a < 2 ^ wa /\
-    RotateLeftConstant_propagate wa wr n a <> spec_rotl wa wr a n /\
-    RotateRightConstant_propagate wa wr 0 a <> spec_rotr wa wr a 0.
-Proof. exists 1, 2, 1, 1. vm_compute. repeat split; congruence. Qed.
+Lemma ShiftRight_wire_full wa wb wr v a b :
+  1 <= wa -> 1 <= wb -> 0 <= wr -> 0 <= a < 2 ^ wa -> 0 <= b < 2 ^ wb ->
+  m_ShiftRight (AWire v) wa wb wr a b = if v mod 2 =? 1 then spec_sar wa wr a b else spec_shr wr a b.
+Proof. intros. pose proof (sar_ext_full wa wb wr b ltac:(lia) ltac:(lia)). apply ShiftRight_wire_ext; lia. Qed.
+
+(* C07-ROT-NARROW: repaired in /repo, switched by fixes/C07_switch.py *)
+(* the `shifted` wires are max(wa, wr) bits wide: they always hold the operand *)
+Lemma RotateRight_full wa wb wr a b :
+  1 <= wa -> 0 <= wr -> 1 <= wb -> 2 ^ (wb - 1) <= wa -> 0 <= a < 2 ^ wa -> 0 <= b < 2 ^ wb ->
+  m_RotateRight wa wb wr a b = spec_rotr wa wr a b.
+Proof. intros. apply RotateRight_ext; unfold rot_sw; lia. Qed.
+
+Lemma RotateLeft_full wa wb wr a b :
+  1 <= wa -> 0 <= wr -> 1 <= wb -> 2 ^ (wb - 1) <= wa -> 0 <= a < 2 ^ wa -> 0 <= b < 2 ^ wb ->
+  m_RotateLeft wa wb wr a b = spec_rotl wa wr a b.
+Proof. intros. apply RotateLeft_ext; unfold rot_sw; lia. Qed.
+
+(* C07-ROTC-WIDE: repaired in /repo, switched by fixes/C07_switch.py *)
